@@ -181,6 +181,8 @@ def judge_program(prop, P, exe, rng, tier, out, agg, label):
         for v in vs:
             # on the macro path a missing / extra / mislabelled node means the item was not registered as written
             mapped = {"C20": "C12", "C13": "C12" if not (it.filters.positive or it.filters.skip or it.filters.builder_skip) else "C13"}.get(v.prop, v.prop)
+            if prop == "C20" and v.prop == "C20":
+                mapped = "C20"       # the printed tree of a real crate judged under C20's own statement
             if mapped == prop:
                 out.violation("%s:%s" % (prop, v.code), "[generated crate %s, %s] %s" % (P.crate, " ".join(cli), v.msg), dict(payload, cli=cli, stdout=so[-4000:]))
     # 3. terse listing = expected case multiset, under each ignore mode (every registered case at its path, skipped ones left out)
